@@ -121,7 +121,8 @@ Definition add_symbol_usage (fuel : nat) (g : graph) (scope : node) (p : path) (
    the event: CodegenContext::evaluate_expression asks `get_symbol` (= query) and then records with the same table. *)
 Inductive Event :=
 | EvUse (g : graph) (scope : node) (p : path) (span : Span)      (* evaluate_expression -> lookup_symbol, tracked *)
-| EvDefine (nx : node) (l : DefinitionLocation)                  (* add_symbol -> set_location *)
+| EvDefine (nx : node) (l : DefinitionLocation)                  (* add_symbol -> set_location; a LATER assignment of a
+                                                                    variable in the same pass is an EvUsage instead *)
 | EvUsage (ty : DefinitionType) (l : DefinitionLocation)         (* macro invocation, import argument, import file name *)
 | EvFileLocation (f : nat) (l : DefinitionLocation).             (* import: the imported file as a definition *)
 
